@@ -94,8 +94,36 @@ _PHASE = dict(
     ensures=_PROGRESS,
 )
 _PH_INV = [('inv', 'inv(self)'), ('text', 'text_kept(old(self), self)'), ('forward', 'self.position >= old(self).position')]
-C[PP + '_parse_sequence_start'] = dict(_PHASE, invariants={0: _PH_INV, 1: _PH_INV + [('cursor-fixed-while-storing', 'self.position == self_at1.position')]},
-                                       decreases={0: 'self.length - self.position'})
-C[PP + '_parse_sequence_middle'] = dict(_PHASE, invariants={0: _PH_INV}, decreases={0: 'self.length - self.position'},
-                                        locals=dict(dummy_interval='Optional[Tuple[int,Optional[int],bool,Optional[List[Mod]]]]'))
+_READY = "(p.position >= p.length or (p.sequence[p.position] in AMINO_ACIDS) or p.sequence[p.position] == '(')"
+MACROS['ready'] = (['p'], _READY)
+# start phase: stops at the end of the text or in front of a residue / an opening parenthesis (what the middle phase consumes)
+C[PP + '_parse_sequence_start'] = dict(
+    _PHASE, ensures=_PROGRESS + [('stops-at-end-or-in-front-of-a-residue', 'ready(self_final)')],
+    invariants={0: _PH_INV, 1: _PH_INV + [('cursor-fixed-while-storing', 'self.position == self_at1.position')]},
+    decreases={0: 'self.length - self.position'})
+# middle phase: a residue or an opening parenthesis under the cursor is consumed
+C[PP + '_parse_sequence_middle'] = dict(
+    _PHASE, ensures=_PROGRESS + [('consumes-the-residue-under-the-cursor',
+                                  "implies(self.position < self.length and ((self.sequence[self.position] in AMINO_ACIDS) or self.sequence[self.position] == '('), "
+                                  'self_final.position > self.position)')],
+    invariants={0: _PH_INV + [('progress-after-the-first-step',
+                               "implies(_k0 > 0 and old(self).position < old(self).length and ((old(self).sequence[old(self).position] in AMINO_ACIDS) or "
+                               "old(self).sequence[old(self).position] == '('), self.position > old(self).position)")]},
+    decreases={0: 'self.length - self.position'},
+    locals=dict(dummy_interval='Optional[Tuple[int,Optional[int],bool,Optional[List[Mod]]]]'))
 C[PP + '_parse_sequence_end'] = dict(_PHASE, invariants={0: _PH_INV}, decreases={0: 'self.length - self.position'})
+
+# ---------------------------------------------------------------- the driver: one chain per iteration, every iteration consumes text
+C[PP + '_get_result'] = dict(params=dict(self='Parser'), returns='ParsedChain', pure=True, trusted=True,
+                             bounded_by='builds the annotation object from the accumulators: bounded/C01.py (parse == description)', ensures=[])
+C[PP + '_reset_sequence'] = dict(params=dict(self='Parser'), returns='None', mutates=['self'], trusted=True,
+                                 bounded_by='clears the accumulators (twelve assignments); exercised by every multi-chain case of bounded/C01.py',
+                                 ensures=[('cursor-and-text-untouched', 'self_final.sequence == self.sequence and self_final.position == self.position and '
+                                           'self_final.length == self.length')])
+C[PP + 'parse'] = dict(
+    params=dict(self='Parser'), returns='List[Tuple[ParsedChain,Optional[bool]]]', mutates=['self'],
+    requires=[('inv', 'inv(self)')], raises={'ValueError': None},
+    ensures=[('whole-text-consumed', 'self_final.position >= self_final.length'), ('text-kept', 'text_kept(self, self_final)')],
+    invariants={0: [('inv', 'inv(self)'), ('text', 'text_kept(old(self), self)')]},
+    decreases={0: 'self.length - self.position'},
+)
